@@ -607,6 +607,70 @@ func (h *harness) sectionUpdaters() error {
 		opUpd(r, "oracle "+hs(p), d)
 	}
 
+	// oracle: definitions naming several platforms (all ordered pairs, some triples, unknown ones mixed in)
+	{
+		all := []string{"Oracle Linux 5", "Oracle Linux 6", "Oracle Linux 7", "Oracle Linux 8", "Oracle Linux 9", "Oracle Linux 10", "Oracle VM 3"}
+		var lists [][]string
+		for i, a := range all {
+			for j, b := range all {
+				if i != j {
+					lists = append(lists, []string{a, b})
+				}
+			}
+		}
+		for k := 0; k < h.cfg.N(20, 200); k++ {
+			n := 3 + h.rnd.Intn(3)
+			var l []string
+			for ; n > 0; n-- {
+				l = append(l, all[h.rnd.Intn(len(all))])
+			}
+			lists = append(lists, l)
+		}
+		var defs []adv
+		for i, l := range lists {
+			defs = append(defs, adv{pkg: "verifrpm", fixed: "0:2.0-1.el", id: fmt.Sprintf("ELSA-multi-%d", i), plats: l})
+		}
+		mvs, err := oracleParseDoc(ctx, w, "com.oracle.elsa-multi.xml", defs)
+		if err != nil {
+			return fmt.Errorf("oracle (several platforms): %w", err)
+		}
+		byID := map[string][]*claircore.Vulnerability{}
+		for _, v := range mvs {
+			byID[v.Name] = append(byID[v.Name], v)
+		}
+		for i, l := range lists {
+			vs := byID[fmt.Sprintf("ELSA-multi-%d", i)]
+			var toks, lines, want, got []string
+			for _, p := range l {
+				toks = append(toks, hs(p))
+				if n := strings.TrimPrefix(p, "Oracle Linux "); n != p && len(n) == 1 {
+					want = append(want, n)
+				}
+			}
+			for _, v := range vs {
+				if v.Dist == nil {
+					lines = append(lines, "nil")
+					continue
+				}
+				lines = append(lines, distLine(v.Dist))
+				got = append(got, v.Dist.Version)
+			}
+			out := "none"
+			if len(lines) > 0 {
+				out = strings.Join(lines, " | ")
+			}
+			r.Op("upd oracle-multi "+strings.Join(toks, " "), out, len(lines) > 1)
+			r.Count("upd:oracle-multi")
+			// the statement itself: every named release is reached, and no other
+			r.Case("oracle definition with platforms "+strings.Join(l, ","), true)
+			sort.Strings(want)
+			sort.Strings(got)
+			if strings.Join(want, ",") != strings.Join(got, ",") {
+				r.Fail("", fmt.Sprintf("oracle parser: a definition whose <affected> lists the platforms %v yields advisories for the releases %v, expected %v", l, got, want))
+			}
+		}
+	}
+
 	// suse
 	h.suseDist = map[string]*claircore.Distribution{}
 	sfiles := map[string][]adv{}
